@@ -45,11 +45,14 @@ package netty
 //@   preserves handlerContext.*, pipeline.*, ghost node, ghost pos
 
 //@ func (*handlerContext).nextContext
+//@   params hc
 //@   inline
 //@ func (*handlerContext).prevContext
+//@   params hc
 //@   inline
 
 //@ func (*handlerContext).HandleActive
+//@   params hc
 //@   inline
 //@   requires hc != nil && is(hc.pipeline, *pipeline) && WF(plOf(hc)) && inlist(plOf(hc), hc)
 //@   may_panic true
@@ -63,6 +66,7 @@ package netty
 //@   ensures_panic routed: nemitted() == 1 && evis(0, "ActiveHandler.HandleActive")
 
 //@ func (*handlerContext).HandleRead
+//@   params hc message
 //@   inline
 //@   requires hc != nil && is(hc.pipeline, *pipeline) && WF(plOf(hc)) && inlist(plOf(hc), hc)
 //@   may_panic true
@@ -76,6 +80,7 @@ package netty
 //@   ensures_panic routed: nemitted() == 1 && evis(0, "InboundHandler.HandleRead")
 
 //@ func (*handlerContext).HandleException
+//@   params hc ex
 //@   inline
 //@   requires hc != nil && is(hc.pipeline, *pipeline) && WF(plOf(hc)) && inlist(plOf(hc), hc)
 //@   may_panic true
@@ -89,6 +94,7 @@ package netty
 //@   ensures_panic routed: nemitted() == 1 && evis(0, "ExceptionHandler.HandleException")
 
 //@ func (*handlerContext).HandleInactive
+//@   params hc ex
 //@   inline
 //@   requires hc != nil && is(hc.pipeline, *pipeline) && WF(plOf(hc)) && inlist(plOf(hc), hc)
 //@   may_panic true
@@ -102,6 +108,7 @@ package netty
 //@   ensures_panic routed: nemitted() == 1 && evis(0, "InactiveHandler.HandleInactive")
 
 //@ func (*handlerContext).HandleEvent
+//@   params hc event
 //@   inline
 //@   requires hc != nil && is(hc.pipeline, *pipeline) && WF(plOf(hc)) && inlist(plOf(hc), hc)
 //@   may_panic true
@@ -115,6 +122,7 @@ package netty
 //@   ensures_panic routed: nemitted() == 1 && evis(0, "EventHandler.HandleEvent")
 
 //@ func (*handlerContext).HandleWrite
+//@   params hc message
 //@   inline
 //@   requires hc != nil && is(hc.pipeline, *pipeline) && WF(plOf(hc)) && inlist(plOf(hc), hc)
 //@   may_panic true
@@ -129,6 +137,7 @@ package netty
 
 //@ property C03 C07
 //@ func (*handlerContext).Write
+//@   params hc message
 //@   requires hc != nil && is(hc.pipeline, *pipeline) && WF(plOf(hc)) && inlist(plOf(hc), hc) && plOf(hc).channel != nil
 //@   loop 0 modifies none
 //@   loop 0 invariant inl: inlist(plOf(hc), next) && pos(next) <= pos(hc)
@@ -142,6 +151,7 @@ package netty
 
 //@ property C03 C07
 //@ func (*handlerContext).Trigger
+//@   params hc event
 //@   requires hc != nil && is(hc.pipeline, *pipeline) && WF(plOf(hc)) && inlist(plOf(hc), hc) && plOf(hc).channel != nil
 //@   loop 0 modifies none
 //@   loop 0 invariant inl: inlist(plOf(hc), next) && pos(next) >= pos(hc)
@@ -158,9 +168,11 @@ package netty
 //@ property C03
 //@ property C03
 //@ func (*pipeline).Size
+//@   params p
 //@   requires p != nil
 //@   ensures result == p.size
 //@ func (*pipeline).IndexOf
+//@   params p comp
 //@   param comp pure
 //@   requires WF(p) && comp != nil
 //@   loop 0 modifies none
@@ -170,6 +182,7 @@ package netty
 //@   ensures found: implies(result >= 0, result < p.size && comp(node(p, result).handler) && forall(l, 0, result, !comp(node(p, l).handler)))
 //@   ensures notfound: implies(result < 0, result == -1 && forall(l, 0, p.size, !comp(node(p, l).handler)))
 //@ func (*pipeline).LastIndexOf
+//@   params p comp
 //@   param comp pure
 //@   requires WF(p) && comp != nil
 //@   loop 0 modifies none
@@ -179,6 +192,7 @@ package netty
 //@   ensures found: implies(result >= 0, result < p.size && comp(node(p, result).handler) && forall(l, result+1, p.size, !comp(node(p, l).handler)))
 //@   ensures notfound: implies(result < 0, result == -1 && forall(l, 0, p.size, !comp(node(p, l).handler)))
 //@ func (*pipeline).ContextAt
+//@   params p position
 //@   requires WF(p) && position >= -1
 //@   loop 0 modifies none
 //@   loop 0 invariant inlist(p, curNode) && pos(curNode) == i && i <= position
@@ -195,6 +209,7 @@ package netty
 // Established by the only constructor (newHandlerContext#post:casts), and the fields are never
 // stored to elsewhere (scans below), so it holds for every context at all times.
 //@ func newHandlerContext
+//@   params p handler prev next
 //@   ensures fresh: result != nil && fresh(result)
 //@   ensures fields: result.pipeline == p && result.handler == handler && result.prev == prev && result.next == next
 //@   ensures casts: castsOK(result)
@@ -230,6 +245,7 @@ package netty
 //@   ensures empty: as(result, *pipeline).size == 2 && as(result, *pipeline).channel == nil
 
 //@ func (*pipeline).addLast
+//@   params p handler
 //@   requires WF(p) && p.size < 1<<40
 //@   modifies handlerContext.next, handlerContext.prev, pipeline.size, ghost node, ghost pos
 //@   after exit ghostset node(q, i) = ite(q == p && i == p.size-2, p.tail.prev, ite(q == p && i == p.size-1, p.tail, node(q, i)))
@@ -242,6 +258,7 @@ package netty
 //@   ensures added: node(p, p.size-2).handler == handler && fresh(node(p, p.size-2))
 
 //@ func (*pipeline).addFirst
+//@   params p handler
 //@   requires WF(p) && p.size < 1<<40
 //@   modifies handlerContext.next, handlerContext.prev, pipeline.size, ghost node, ghost pos
 //@   after exit ghostset pos(c) = ite(c == p.head.next, 1, ite(is(c.pipeline, *pipeline) && as(c.pipeline, *pipeline) == p && pos(c) >= 1 && node(p, pos(c)) == c, pos(c)+1, pos(c)))
@@ -255,11 +272,13 @@ package netty
 
 //@ spec func admissible(h Handler) bool = impl(h, ActiveHandler) || impl(h, InboundHandler) || impl(h, OutboundHandler) || impl(h, ExceptionHandler) || impl(h, InactiveHandler) || impl(h, EventHandler)
 //@ func checkHandler
+//@   params handlers
 //@   panics_iff exists(k, 0, len(handlers), !admissible(handlers[k]))
 //@   loop 0 invariant forall(k, 0, rangeindex+1, admissible(handlers[k])) && -1 <= rangeindex && rangeindex < len(handlers)
 //@   loop 0 decreases len(handlers) - rangeindex
 
 //@ func (*pipeline).AddLast
+//@   params p handlers
 //@   requires WF(p) && p.size + len(handlers) < 1<<40
 //@   panics_iff exists(k, 0, len(handlers), !admissible(handlers[k]))
 //@   modifies handlerContext.next, handlerContext.prev, pipeline.size, ghost node, ghost pos
@@ -280,6 +299,7 @@ package netty
 //@   ensures_panic untouched: p.size == old(p.size) && forall(i, 0, p.size, node(p, i) == old(node(p, i)))
 
 //@ func (*pipeline).AddFirst
+//@   params p handlers
 //@   requires WF(p) && p.size + len(handlers) < 1<<40
 //@   panics_iff exists(k, 0, len(handlers), !admissible(handlers[k]))
 //@   modifies handlerContext.next, handlerContext.prev, pipeline.size, ghost node, ghost pos
@@ -300,6 +320,7 @@ package netty
 //@   ensures_panic untouched: p.size == old(p.size) && forall(i, 0, p.size, node(p, i) == old(node(p, i)))
 
 //@ func (*pipeline).AddHandler
+//@   params p position handlers
 //@   requires WF(p) && p.size + len(handlers) < 1<<40 && position >= -1
 //@   panics_iff exists(k, 0, len(handlers), !admissible(handlers[k])) || position >= p.size
 //@   modifies handlerContext.next, handlerContext.prev, pipeline.size, ghost node, ghost pos
@@ -333,36 +354,42 @@ package netty
 // ---------------------------------------------------------------------------
 // event entry points of the pipeline: inbound events start at the head, writes at the tail
 //@ func (*pipeline).FireChannelActive
+//@   params p
 //@   requires WF(p) && p.channel != nil
 //@   may_panic true
 //@   ensures atmost: nemitted() <= 1
 //@   ensures first: implies(nemitted() == 1, evis(0, "ActiveHandler.HandleActive") && is(evarg(0, 0), *handlerContext) && at(0, inlist(p, as(evarg(0, 0), *handlerContext)) && pos(as(evarg(0, 0), *handlerContext)) > 0 && as(evarg(0, 0), *handlerContext).cast2Active != nil && evrecv(0) == as(evarg(0, 0), *handlerContext).cast2Active && forall(l, 1, pos(as(evarg(0, 0), *handlerContext)), node(p, l).cast2Active == nil)))
 //@   ensures none: implies(nemitted() == 0, forall(l, 1, p.size, node(p, l).cast2Active == nil))
 //@ func (*pipeline).FireChannelRead
+//@   params p message
 //@   requires WF(p) && p.channel != nil
 //@   may_panic true
 //@   ensures atmost: nemitted() <= 1
 //@   ensures first: implies(nemitted() == 1, evis(0, "InboundHandler.HandleRead") && is(evarg(0, 0), *handlerContext) && evarg(0, 1) == message && at(0, inlist(p, as(evarg(0, 0), *handlerContext)) && pos(as(evarg(0, 0), *handlerContext)) > 0 && as(evarg(0, 0), *handlerContext).cast2Inbound != nil && evrecv(0) == as(evarg(0, 0), *handlerContext).cast2Inbound && forall(l, 1, pos(as(evarg(0, 0), *handlerContext)), node(p, l).cast2Inbound == nil)))
 //@   ensures none: implies(nemitted() == 0, forall(l, 1, p.size, node(p, l).cast2Inbound == nil))
 //@ func (*pipeline).FireChannelException
+//@   params p ex
 //@   requires WF(p) && p.channel != nil
 //@   may_panic true
 //@   ensures atmost: nemitted() <= 1
 //@   ensures first: implies(nemitted() == 1, evis(0, "ExceptionHandler.HandleException") && is(evarg(0, 0), *handlerContext) && evarg(0, 1) == ex && at(0, inlist(p, as(evarg(0, 0), *handlerContext)) && pos(as(evarg(0, 0), *handlerContext)) > 0 && as(evarg(0, 0), *handlerContext).cast2Exception != nil && evrecv(0) == as(evarg(0, 0), *handlerContext).cast2Exception && forall(l, 1, pos(as(evarg(0, 0), *handlerContext)), node(p, l).cast2Exception == nil)))
 //@   ensures none: implies(nemitted() == 0, forall(l, 1, p.size, node(p, l).cast2Exception == nil))
 //@ func (*pipeline).FireChannelInactive
+//@   params p ex
 //@   requires WF(p) && p.channel != nil
 //@   may_panic true
 //@   ensures atmost: nemitted() <= 1
 //@   ensures first: implies(nemitted() == 1, evis(0, "InactiveHandler.HandleInactive") && is(evarg(0, 0), *handlerContext) && evarg(0, 1) == ex && at(0, inlist(p, as(evarg(0, 0), *handlerContext)) && pos(as(evarg(0, 0), *handlerContext)) > 0 && as(evarg(0, 0), *handlerContext).cast2Inactive != nil && evrecv(0) == as(evarg(0, 0), *handlerContext).cast2Inactive && forall(l, 1, pos(as(evarg(0, 0), *handlerContext)), node(p, l).cast2Inactive == nil)))
 //@   ensures none: implies(nemitted() == 0, forall(l, 1, p.size, node(p, l).cast2Inactive == nil))
 //@ func (*pipeline).FireChannelEvent
+//@   params p event
 //@   requires WF(p) && p.channel != nil
 //@   may_panic true
 //@   ensures atmost: nemitted() <= 1
 //@   ensures first: implies(nemitted() == 1, evis(0, "EventHandler.HandleEvent") && is(evarg(0, 0), *handlerContext) && evarg(0, 1) == event && at(0, inlist(p, as(evarg(0, 0), *handlerContext)) && pos(as(evarg(0, 0), *handlerContext)) > 0 && as(evarg(0, 0), *handlerContext).cast2Event != nil && evrecv(0) == as(evarg(0, 0), *handlerContext).cast2Event && forall(l, 1, pos(as(evarg(0, 0), *handlerContext)), node(p, l).cast2Event == nil)))
 //@   ensures none: implies(nemitted() == 0, forall(l, 1, p.size, node(p, l).cast2Event == nil))
 //@ func (*pipeline).FireChannelWrite
+//@   params p message
 //@   requires WF(p) && p.channel != nil
 //@   may_panic true
 //@   ensures atmost: nemitted() <= 1
@@ -370,6 +397,7 @@ package netty
 //@   ensures none: implies(nemitted() == 0, forall(l, 0, p.size-1, node(p, l).cast2Outbound == nil))
 
 //@ func (*pipeline).Channel
+//@   params p
 //@   requires p != nil
 //@   ensures result == p.channel
 
@@ -400,6 +428,7 @@ package netty
 // C03: an exception forwarded past the last handler closes the channel with that exception
 //@ property C03 C07
 //@ func (tailHandler).HandleException
+//@   params arg0 ctx ex
 //@   requires ctx != nil
 //@   ensures closes: nemitted() == 1 && evis(0, "Channel.Close") && evarg(0, 0) == ex
 
@@ -411,6 +440,7 @@ package netty
 //@ spec func isWriterTo(m Message) bool = !isBytes(m) && !isVec(m) && !isBuf(m) && impl(m, io.WriterTo)
 //@ spec func isReader(m Message) bool = !isBytes(m) && !isVec(m) && !isBuf(m) && !impl(m, io.WriterTo) && impl(m, io.Reader)
 //@ func (headHandler).HandleWrite
+//@   params arg0 ctx message
 //@   requires ctx != nil
 //@   may_panic true
 //@   ensures single_write_bytes: implies(isBytes(message), nemitted() == 1 && evis(0, "Channel.Write1") && sameslice(evarg(0, 0), as(message, []byte)))
@@ -426,6 +456,7 @@ package netty
 //@ property C03
 // context accessors
 //@ func (*handlerContext).Channel
+//@   params hc
 //@   inline
 // the pipeline of a context and the channel of a pipeline do not change while events flow
 // (the statement excludes pipeline mutation during event delivery)
@@ -442,6 +473,7 @@ package netty
 
 //@ property C07 C03
 //@ func AsException
+//@   params ex
 //@   ensures nil_stays_nil: implies(ex == nil, result == nil)
 //@   ensures errors_unchanged: implies(ex != nil && impl(ex, error), result == ex)
 //@   ensures non_nil: implies(ex != nil, result != nil)
@@ -478,6 +510,7 @@ package netty
 
 //@ property C01 C02 C06 C09 C10 C11 C18
 //@ func (*channel).asyncWrite
+//@   params c ctx p clone
 //@   inline
 //@   requires asyncInv(c) && ctx != nil && len(p) <= 1<<47
 //@   modifies ghost pooltyp, ghost chclosed, elems(uint8), cell([]byte), channel.running
@@ -499,6 +532,7 @@ package netty
 // asyncWritev: all buffers are merged into ONE packet (C09: a vectored message is one queue entry)
 //@ property C01 C02 C06 C09 C10 C11 C18
 //@ func (*channel).asyncWritev
+//@   params c ctx p
 //@   inline
 //@   requires asyncInv(c) && ctx != nil
 //@   modifies ghost pooltyp, ghost chclosed, elems(uint8), cell([]byte), channel.running
@@ -544,13 +578,16 @@ package netty
 
 //@ property C05 C07 C11
 //@ func (*channel).invokeMethod
+//@   params c fn
 //@   inline
 //@ property C05 C11
 //@ func (*channel).IsActive
+//@   params c
 //@   inline
 
 //@ property C05 C06 C07 C11 C12 C13
 //@ func (*channel).Close
+//@   params c err
 //@   event
 //@   mode intwrap
 //@   requires chinv(c)
@@ -578,6 +615,7 @@ package netty
 //@ property C01 C02 C05 C06 C07 C09 C10 C11 C12 C18
 //@ methods channelWriter: Write
 //@ func (*channel).loadCloseErr
+//@   params c
 //@   requires c != nil && c.ctx != nil
 //@   modifies nothing
 //@   ensures one_atomic_load: nemitted() == 1 && evis(0, "Load")
@@ -589,6 +627,7 @@ package netty
 //@ spec func bufInv(c *channel) bool = c.writeBuffers != nil && c.recycleBuffers != nil && cap(c.writeBuffers) == cap(c.recycleBuffers) && cap(c.writeBuffers) >= 1 && arrof(c.writeBuffers) != arrof(c.recycleBuffers) && cap(c.writeBuffers) == cap(c.writeQueue)/2 + 1
 //@ property C01 C02 C05 C06 C07 C09 C10 C11 C12 C18
 //@ func (*channel).writeOnce
+//@   params c
 //@   requires asyncInv(c) && bufInv(c)
 //@   modifies all
 //@   preserves handlerContext.*, pipeline.*, ghost node, ghost pos, channel.ctx, channel.cancel, channel.transport, channel.executor, channel.pipeline, channel.writeQueue, channel.untilWrite, channel.writeBuffers, channel.recycleBuffers, channel.id, channel.closed
@@ -622,6 +661,8 @@ package netty
 // low-level write entry points
 //@ property C01 C09 C11 C18
 //@ func (*channel).write1
+//@   params c p clone
+//@   results n err
 //@   event
 //@   requires chinv(c) && implies(c.writeQueue != nil, cap(c.writeQueue) >= 1) && len(p) <= 1<<47
 //@   modifies ghost pooltyp, ghost chclosed, elems(uint8), cell([]byte), channel.running
@@ -636,6 +677,8 @@ package netty
 //@   ensures closed_rejects@C11: implies(old(closedState(c)), err != nil && count("send c.writeQueue") == 0)
 //@ property C01 C09 C11 C14 C18
 //@ func (*channel).Writev
+//@   params c p
+//@   results n err
 //@   requires chinv(c) && implies(c.writeQueue != nil, cap(c.writeQueue) >= 1)
 //@   modifies ghost pooltyp, ghost chclosed, elems(uint8), cell([]byte), channel.running
 //@   ensures at_most_one_enqueue: count("send c.writeQueue") <= 1
@@ -649,6 +692,8 @@ package netty
 //@   ensures closed_rejects@C11: implies(old(closedState(c)), err != nil && count("send c.writeQueue") == 0)
 //@ property C01 C09 C11 C18
 //@ func (*channel).CtxWrite1
+//@   params c ctx p
+//@   results n err
 //@   requires chinv(c) && implies(c.writeQueue != nil, cap(c.writeQueue) >= 1) && ctx != nil && len(p) <= 1<<47
 //@   modifies ghost pooltyp, ghost chclosed, elems(uint8), cell([]byte), channel.running
 //@   ensures listens_to_caller_context: implies(count("select blocking") + count("select nonblocking") == 1, evarg(first("select blocking") + first("select nonblocking") + 1, 0) == ctxdone(ctx) && evarg(first("select blocking") + first("select nonblocking") + 1, 1) == ctxdone(old(c.ctx)) && evarg(first("select blocking") + first("select nonblocking") + 1, 2) == old(c.writeQueue))
@@ -663,6 +708,8 @@ package netty
 //@   ensures closed_rejects@C11: implies(old(closedState(c)), err != nil && count("send c.writeQueue") == 0)
 //@ property C01 C09 C11 C18
 //@ func (*channel).CtxWritev
+//@   params c ctx pv
+//@   results n err
 //@   requires chinv(c) && implies(c.writeQueue != nil, cap(c.writeQueue) >= 1) && ctx != nil
 //@   modifies ghost pooltyp, ghost chclosed, elems(uint8), cell([]byte), channel.running
 //@   ensures listens_to_caller_context: implies(count("select blocking") + count("select nonblocking") == 1, evarg(first("select blocking") + first("select nonblocking") + 1, 0) == ctxdone(ctx) && evarg(first("select blocking") + first("select nonblocking") + 1, 1) == ctxdone(old(c.ctx)) && evarg(first("select blocking") + first("select nonblocking") + 1, 2) == old(c.writeQueue))
@@ -677,13 +724,18 @@ package netty
 //@   ensures closed_rejects@C11: implies(old(closedState(c)), err != nil && count("send c.writeQueue") == 0)
 //@ property C01 C09 C11 C18 C14
 //@ func (*channel).Write1
+//@   params c p
+//@   results n err
 //@   inline
 //@ property C01 C14
 //@ func (*channel).Writer
+//@   params c
 //@   requires c != nil
 //@   ensures is(result, channelWriter) && as(result, channelWriter).channel == c
 //@ property C01 C14
 //@ func (channelWriter).Write
+//@   params c p
+//@   results n err
 //@   requires c.channel != nil
 //@   may_panic true
 //@   ensures delegates: nemitted() == 1 && evis(0, "Channel.Write1") && evrecv(0) == c.channel && sameslice(evarg(0, 0), p) && n == evres(0, 0) && err == evres(0, 1)
@@ -691,6 +743,7 @@ package netty
 // Write / Trigger: pipeline entry points; a panic in any handler never escapes (C07)
 //@ property C05 C07 C11
 //@ func (*channel).Write
+//@   params c message
 //@   requires chinv(c)
 //@   modifies all
 //@   preserves handlerContext.*, pipeline.*, ghost node, ghost pos, channel.ctx, channel.cancel, channel.transport, channel.executor, channel.pipeline, channel.writeQueue, channel.untilWrite, channel.writeBuffers, channel.recycleBuffers, channel.id, channel.closed
@@ -702,6 +755,7 @@ package netty
 //@   ensures closed_rejects@C11: implies(old(closedState(c)), result != nil && count("Pipeline.FireChannelWrite") == 0)
 //@ property C07
 //@ func (*channel).Trigger
+//@   params c event
 //@   requires chinv(c)
 //@   modifies all
 //@   preserves handlerContext.*, pipeline.*, ghost node, ghost pos, channel.ctx, channel.cancel, channel.transport, channel.executor, channel.pipeline, channel.writeQueue, channel.untilWrite, channel.writeBuffers, channel.recycleBuffers, channel.id, channel.closed
@@ -721,12 +775,15 @@ package netty
 // produces ErrAsyncNoSpace is the configured one)
 //@ property C01 C02 C06 C18
 //@ func NewAsyncWriteChannel
+//@   params writeQueueSize untilWrite
 //@   ensures keeps_configuration: captured(result, "NewAsyncWriteChannel$1", "writeQueueSize") == writeQueueSize && captured(result, "NewAsyncWriteChannel$1", "untilWrite") == untilWrite
 //@ func NewAsyncWriteChannel$1
+//@   params id ctx pipeline transport executor
 //@   requires ctx != nil && writeQueueSize <= 1<<40
 //@   ensures built_as_configured: is(result, *channel) && implies(writeQueueSize > 0, as(result, *channel).writeQueue != nil && cap(as(result, *channel).writeQueue) == writeQueueSize) && implies(writeQueueSize <= 0, as(result, *channel).writeQueue == nil) && as(result, *channel).untilWrite == untilWrite
 //@ property C01 C02 C05 C06 C09 C10 C12 C13 C14 C18
 //@ func newChannelWith
+//@   params ctx pipeline transport executor id writeQueueSize untilWrite
 //@   requires ctx != nil && writeQueueSize <= 1<<40
 //@   ensures is(result, *channel) && fresh(as(result, *channel)) && as(result, *channel) != nil
 //@   ensures config: as(result, *channel).id == id && as(result, *channel).pipeline == pipeline && as(result, *channel).transport == transport && as(result, *channel).executor == executor && as(result, *channel).untilWrite == untilWrite && as(result, *channel).closed == 0 && as(result, *channel).running == 0
@@ -737,6 +794,7 @@ package netty
 
 //@ property C04 C05 C07 C08 C13 C16
 //@ func (*channel).readLoop
+//@   params c done
 //@   requires chinv(c) && done != nil
 //@   modifies all
 //@   preserves handlerContext.*, pipeline.*, ghost node, ghost pos, channel.ctx, channel.cancel, channel.transport, channel.executor, channel.pipeline, channel.writeQueue, channel.untilWrite, channel.writeBuffers, channel.recycleBuffers, channel.id, channel.closed
@@ -751,6 +809,7 @@ package netty
 //@ order (*channel).readLoop: "readLoop$2" dominates "invokeMethod"
 //@ property C05 C13
 //@ func (*channel).serveChannel
+//@   params c
 //@   requires chinv(c)
 //@   may_panic true
 //@   modifies all
@@ -761,6 +820,8 @@ package netty
 // (Each chunk is a separate low-level write: that is the known C09 finding for reader-typed messages.)
 //@ property C01 C02 C04 C08 C09 C10 C11 C12 C14
 //@ func (*channel).ReadFrom
+//@   params c r
+//@   results n err
 //@   requires chinv(c) && implies(c.writeQueue != nil, cap(c.writeQueue) >= 1) && r != nil && rwf(r)
 //@   ensures closed_rejects@C11: implies(old(closedState(c)), err != nil && n == 0 && count("netty.channel.write1") == 0 && count("io.Reader.Read") == 0)
 //@   may_panic true
@@ -911,12 +972,14 @@ package netty
 //@ spec func lsnInv(l *listener) bool = l != nil && bsinv(l.bs)
 
 //@ func (*bootstrap).Context
+//@   params bs
 //@   requires bs != nil && bs.bootstrapOptions != nil
 //@   ensures result == bs.bootstrapOptions.bootstrapCtx
 
 // Shutdown: cancel first (so that everything that starts later sees a cancelled context), then every
 // registered listener, then every channel in the holder - with the server-closed error.
 //@ func (*bootstrap).Shutdown
+//@   params bs
 //@   requires bsinv(bs)
 //@   modifies all
 //@   preserves bootstrap.*, bootstrapOptions.*
@@ -926,6 +989,7 @@ package netty
 //@   ensures nothing_else: implies(old(bs.bootstrapOptions.holder) == nil, nemitted() == 2)
 // (the requires of the callback is not checked at a call site: ASSUMED only Listeners are stored in the registry)
 //@ func (*bootstrap).Shutdown$1
+//@   params key value
 //@   requires is(value, Listener)
 //@   may_panic true
 //@   modifies all
@@ -935,10 +999,12 @@ package netty
 // that moment (guarded fields are re-read at the lock: other threads' updates become visible there,
 // so posts speak about the values held at the END of the critical section = the final ones here).
 //@ func (*bootstrap).removeListener
+//@   params bs url
 //@   event
 //@   requires bs != nil
 //@   ensures unregisters: nemitted() == 1 && evis(0, "Delete") && evarg(0, 0) == &bs.listeners
 //@ func (*listener).Close
+//@   params l
 //@   event
 //@   requires lsnInv(l)
 //@   modifies listener.closed, listener.acceptor, listener.options
@@ -949,6 +1015,7 @@ package netty
 
 // listen: decides under the same mutex; a closed listener, or a cancelled bootstrap, never listens.
 //@ func (*listener).listen
+//@   params l
 //@   event
 //@   requires lsnInv(l)
 //@   may_panic true
@@ -977,6 +1044,7 @@ package netty
 //@   modifies all
 //@   preserves bootstrap.*, bootstrapOptions.*, listener.*, transport.Options.*
 //@ func (*bootstrap).ServeChannel
+//@   params bs ctx transport attachment childChannel
 //@   event
 //@   requires bsinv(bs) && bs.bootstrapOptions.channelFactory != nil && bs.bootstrapOptions.pipelineFactory != nil && bs.bootstrapOptions.channelIDFactory != nil && implies(childChannel, bs.bootstrapOptions.childInitializer != nil) && implies(!childChannel, bs.bootstrapOptions.clientInitializer != nil)
 //@   may_panic true
@@ -989,6 +1057,7 @@ package netty
 // Sync: the accept loop ends only on an accept error; with the (bootstrap-derived) context done
 // the result is the server-closed error; every accepted transport is served once as a child channel.
 //@ func (*listener).Sync
+//@   params l
 //@   requires lsnInv(l) && l.bs.bootstrapOptions.channelFactory != nil && l.bs.bootstrapOptions.pipelineFactory != nil && l.bs.bootstrapOptions.channelIDFactory != nil && l.bs.bootstrapOptions.childInitializer != nil
 //@   may_panic true
 //@   modifies all
@@ -1005,12 +1074,14 @@ package netty
 //@   ensures server_closed_after_shutdown: implies(evres(0, 2) == nil && chclosed(ctxdone(old(l.bs.bootstrapOptions.bootstrapCtx))), result == ErrServerClosed)
 
 //@ func (*listener).Async
+//@   params l fn
 //@   requires lsnInv(l) && fn != nil
 //@   modifies all
 //@   ensures hands_over_to_executor: nemitted() == 1 && evis(0, "Executor.Exec") && evrecv(0) == old(l.bs.bootstrapOptions.executor)
 
 // Connect: a client channel is served over the (bootstrap-derived) context of its options.
 //@ func (*bootstrap).Connect
+//@   params bs url option
 //@   requires bsinv(bs) && bs.bootstrapOptions.channelFactory != nil && bs.bootstrapOptions.pipelineFactory != nil && bs.bootstrapOptions.channelIDFactory != nil && bs.bootstrapOptions.clientInitializer != nil
 //@   may_panic true
 //@   modifies all
@@ -1020,6 +1091,7 @@ package netty
 
 // Listen: the listener is registered (for Shutdown to find) before it is returned.
 //@ func (*bootstrap).Listen
+//@   params bs url option
 //@   requires bsinv(bs)
 //@   may_panic true
 //@   modifies nothing
@@ -1042,8 +1114,10 @@ package netty
 //@   modifies all
 //@   may_panic true
 //@ func NewChannelHolder
+//@   params capacity
 //@   ensures allocated: is(result, *channelHolder) && as(result, *channelHolder).channels != nil && fresh(as(result, *channelHolder))
 //@ func (*channelHolder).addChannel
+//@   params c ch
 //@   event
 //@   requires hinv(c) && ch != nil
 //@   may_panic true
@@ -1051,11 +1125,13 @@ package netty
 //@   ensures inserted_under_lock: evis(0, "lock c.mutex") && evis(nemitted()-1, "unlock c.mutex") && count("lock c.mutex") == 1 && count("unlock c.mutex") == 1 && count("mapupdate c.channels") == 1 && evarg(first("mapupdate c.channels"), 2) == ch && !evres(first("maplookup c.channels"), 1)
 //@   ensures_panic duplicate_not_inserted: count("mapupdate c.channels") == 0 && evis(nemitted()-1, "unlock c.mutex") && evres(first("maplookup c.channels"), 1)
 //@ func (*channelHolder).delChannel
+//@   params c ch
 //@   event
 //@   requires hinv(c) && ch != nil
 //@   modifies channelHolder.channels
 //@   ensures deleted_under_lock: evis(0, "lock c.mutex") && evis(nemitted()-1, "unlock c.mutex") && count("mapdelete c.channels") == 1 && nemitted() == 3
 //@ func (*channelHolder).CloseAll
+//@   params c err
 //@   requires hinv(c)
 //@   may_panic true
 //@   modifies all
@@ -1066,11 +1142,13 @@ package netty
 //@   ensures swapped_under_lock: evis(0, "lock c.mutex") && evis(1, "unlock c.mutex") && count("lock c.mutex") == 1
 //@   ensures range_runs_to_the_end: evis(nemitted()-1, "mapnext") && !evres(nemitted()-1, 0)
 //@ func (*channelHolder).HandleActive
+//@   params c ctx
 //@   requires hinv(c) && ctx != nil
 //@   may_panic true
 //@   modifies all
 //@   ensures registered_before_forwarding: evis(0, "netty.channelHolder.addChannel") && implies(!panicked(), nemitted() == 2 && evis(1, "ActiveContext.HandleActive") && evrecv(1) == ctx)
 //@ func (*channelHolder).HandleInactive
+//@   params c ctx ex
 //@   requires hinv(c) && ctx != nil
 //@   may_panic true
 //@   modifies all
@@ -1121,10 +1199,13 @@ package netty
 //@ assume func =(*time.Timer).Stop
 //@   event
 //@ func (*readIdleHandler).withLock
+//@   params r fn
 //@   inline
 //@ func (*readIdleHandler).withReadLock
+//@   params r fn
 //@   inline
 //@ func (*readIdleHandler).HandleInactive
+//@   params r ctx ex
 //@   requires r != nil && ctx != nil
 //@   may_panic true
 //@   modifies all
@@ -1135,10 +1216,12 @@ package netty
 //@   modifies all
 //@   may_panic true
 //@ func ReadIdleHandler
+//@   params idleTime
 //@   panics_iff idleTime < 1000000000
 //@   ensures configured: is(result, *readIdleHandler) && as(result, *readIdleHandler).idleTime == idleTime && as(result, *readIdleHandler).readTimer == nil && as(result, *readIdleHandler).handlerCtx == nil && fresh(as(result, *readIdleHandler))
 // active: context cached, clock read, timer armed for one full idle period - in one critical section
 //@ func (*readIdleHandler).HandleActive
+//@   params r ctx
 //@   requires r != nil && ctx != nil
 //@   may_panic true
 //@   modifies all
@@ -1147,6 +1230,7 @@ package netty
 //@   ensures then_forwards: implies(!panicked(), nemitted() == 5 && evis(4, "ActiveContext.HandleActive") && evrecv(4) == ctx)
 // read: forwarded first; then the last-read time is refreshed and the timer (if still armed) restarted
 //@ func (*readIdleHandler).HandleRead
+//@   params r ctx message
 //@   requires r != nil && ctx != nil
 //@   may_panic true
 //@   modifies all
@@ -1156,6 +1240,7 @@ package netty
 // timer callback: fires only when a full idle period has elapsed since the last read time read
 // under the lock and a context is cached; never panics; re-arms only a timer that still exists.
 //@ func (*readIdleHandler).onReadTimeout
+//@   params r
 //@   requires r != nil
 //@   modifies all
 //@   ensures reads_state_under_read_lock: evis(0, "rlock r.mutex") && evis(1, "time.Since") && evis(2, "runlock r.mutex") && at(1, evarg(1, 0) == r.lastReadTime)
@@ -1167,13 +1252,17 @@ package netty
 
 // the write-idle handler mirrors the read-idle handler; HandleWrite refreshes BEFORE forwarding
 //@ func (*writeIdleHandler).withLock
+//@   params w fn
 //@   inline
 //@ func (*writeIdleHandler).withReadLock
+//@   params w fn
 //@   inline
 //@ func WriteIdleHandler
+//@   params idleTime
 //@   panics_iff idleTime < 1000000000
 //@   ensures configured: is(result, *writeIdleHandler) && as(result, *writeIdleHandler).idleTime == idleTime && as(result, *writeIdleHandler).writeTimer == nil && as(result, *writeIdleHandler).handlerCtx == nil && fresh(as(result, *writeIdleHandler))
 //@ func (*writeIdleHandler).HandleActive
+//@   params w ctx
 //@   requires w != nil && ctx != nil
 //@   may_panic true
 //@   modifies all
@@ -1181,6 +1270,7 @@ package netty
 //@   ensures state_after_arming: at(3, w.handlerCtx == ctx && w.lastWriteTime == evres(1, 0) && w.writeTimer == evres(2, 0) && w.idleTime == old(w.idleTime))
 //@   ensures then_forwards: implies(!panicked(), nemitted() == 5 && evis(4, "ActiveContext.HandleActive") && evrecv(4) == ctx)
 //@ func (*writeIdleHandler).HandleWrite
+//@   params w ctx message
 //@   requires w != nil && ctx != nil
 //@   may_panic true
 //@   modifies all
@@ -1188,6 +1278,7 @@ package netty
 //@   ensures restarts_armed_timer: at(1, implies(w.writeTimer != nil, count("Timer).Reset") == 1 && evarg(first("Timer).Reset"), 0) == w.writeTimer && evarg(first("Timer).Reset"), 1) == w.idleTime) && implies(w.writeTimer == nil, count("Timer).Reset") == 0)) && count("time.AfterFunc") == 0
 //@   ensures then_forwards: implies(!panicked(), evis(nemitted()-1, "OutboundContext.HandleWrite") && evrecv(nemitted()-1) == ctx && evarg(nemitted()-1, 0) == message && first("unlock w.mutex") < nemitted()-1)
 //@ func (*writeIdleHandler).HandleInactive
+//@   params w ctx ex
 //@   requires w != nil && ctx != nil
 //@   may_panic true
 //@   modifies all
@@ -1195,6 +1286,7 @@ package netty
 //@   ensures existing_timer_stopped: at(first("lock w.mutex"), implies(w.writeTimer != nil, count("Timer).Stop") == 1 && evarg(first("Timer).Stop"), 0) == w.writeTimer))
 //@   ensures then_forwards: implies(!panicked(), evis(nemitted()-1, "InactiveContext.HandleInactive") && evrecv(nemitted()-1) == ctx && evarg(nemitted()-1, 0) == ex && first("unlock w.mutex") < nemitted()-1)
 //@ func (*writeIdleHandler).onWriteTimeout
+//@   params w
 //@   requires w != nil
 //@   modifies all
 //@   ensures reads_state_under_read_lock: evis(0, "rlock w.mutex") && evis(1, "time.Since") && evis(2, "runlock w.mutex") && at(1, evarg(1, 0) == w.lastWriteTime)
